@@ -311,6 +311,13 @@ def run(chk, repo):
                 and canon_call(mod, a0_.generators[0].iter) == "range" \
                 and [unparse(x) for x in a0_.generators[0].iter.args] == ["idx", "size"]:
             ok_ext = True
+        elif isinstance(a0_, ast.Call) and canon_call(mod, a0_) in ("itertools.repeat", "repeat") and len(a0_.args) == 2 \
+                and not a0_.keywords and unparse(a0_.args[0]) == "padval":
+            # res.extend(repeat(padval, size - idx))
+            try:
+                ok_ext = Evaluator().ev(a0_.args[1]) == size - RF.sym("idx")
+            except Inconclusive:
+                ok_ext = False
         elif isinstance(a0_, ast.BinOp) and isinstance(a0_.op, ast.Mult):
             lst, cnt = (a0_.left, a0_.right) if isinstance(a0_.left, ast.List) else (a0_.right, a0_.left)
             try:
